@@ -16,13 +16,14 @@ func init() {
 	verifrt.Register("Harness_C01_VerifyIff", Harness_C01_VerifyIff)
 	verifrt.Register("Harness_C01_Receive", Harness_C01_Receive)
 	verifrt.Register("Harness_C01_Replace", Harness_C01_Replace)
+	verifrt.Register("Harness_C01_DisabledAttesterLeavesTheSet", Harness_C01_DisabledAttesterLeavesTheSet)
 }
 
 func c01MaxT() int {
 	if verifrt.Tier() == 1 {
-		return 4
+		return 3
 	}
-	return 3
+	return 2
 }
 
 func Harness_C01_VerifyIff() {
@@ -45,16 +46,13 @@ func Harness_C01_VerifyIff() {
 		list = append(list, types.Attester{Attester: a})
 	}
 	t := verifrt.NondetU32("threshold")
+	// reachable states keep the threshold at or below the number of enabled attesters (C13); zero is
+	// included to check its explicit rejection
+	verifrt.Assume(t <= uint32(n))
 	// copy of the attestation as submitted (the verifier normalises recovery ids in place)
 	orig := append([]byte{}, att...)
 	err := VerifyAttestationSignatures(msg, att, list, t)
 	verifrt.ProbeAttestation("m_message", "m_attestation", "att", msg, orig, names, maxT)
-	if t > uint32(maxT) {
-		// thresholds above the bound: only the length rule is inside the claim
-		verifrt.Cover("threshold-above-bound")
-		verifrt.Assert("C01/verify/oversize-threshold-needs-exact-length", verifrt.Implies(err == nil, uint64(len(orig)) == 65*uint64(t)))
-		return
-	}
 	spec := refAttestationValid(msg, orig, names, t, maxT)
 	if err == nil {
 		verifrt.Cover("accepted")
@@ -80,6 +78,25 @@ func Harness_C01_VerifyIff() {
 		}
 		verifrt.Assert("C01/verify/signers-pairwise-distinct", distinct)
 	}
+}
+
+// "currently enabled": an attester that was disabled is no longer in the set handed to the verifier
+func Harness_C01_DisabledAttesterLeavesTheSet() {
+	h := newH("")
+	h.setupAdminState(2)
+	from := nondetSubmitter()
+	h.Env.BeginTx()
+	ok, _ := h.callAdmin(hDisableAttester, from)
+	if !ok {
+		verifrt.Cover("rejected")
+		return
+	}
+	verifrt.Cover("disabled")
+	gone := true
+	for _, a := range h.K.GetAllAttesters(h.Env.Ctx) {
+		gone = verifrt.All(gone, a.Attester != h.M.Attester)
+	}
+	verifrt.Assert("C01/disabled-attester-not-in-verifier-set", gone)
 }
 
 // the two call sites pass exactly the submitted bytes, all stored attesters and the stored threshold
